@@ -591,6 +591,7 @@ gc0ExternDecls(String name)
 	gcvPreProcCC	= listNil(CCode);
 	gcvDefCC	= listNil(CCode);
 	gcvBIntCC	= listNil(CCode);
+	gcvNBInts	= 0;
 	gcvRRFmtCC	= listNil(CCode);
 	gcvInitProgCC	= listNil(CCode);
 
